@@ -68,6 +68,8 @@ package cqrs
 //@   requires msg != nil
 //@   nopanic
 //@   ensures err == nil ==> protodecoded(v) == bytes(msg.Payload) [target-decoded-from-exactly-the-payload]
+//@   ensures ncalls(PUM) == old(ncalls(PUM)) + (implements(v, "protoreflect.ProtoMessage") ? 1 : 0) [the-decoder-is-called-exactly-when-the-target-is-a-protobuf-message-whatever-the-payload]
+//@   ensures ncalls(PUM) == old(ncalls(PUM)) + 1 ==> err == sret(PUM, 0, old(ncalls(PUM))) [and-its-verdict-is-the-result]
 //@   modifies ghost(protodecoded)
 
 //@ func (ProtobufMarshaler).ToProtoMarshaler
